@@ -30,6 +30,18 @@ type c05case struct {
 	Which    int
 }
 
+// c05garbageKinds: byte strings that are not keys - of arbitrary sizes, and of exactly the size of a group element (all ones, all
+// zeros, a pattern, a genuine element with one byte changed: full-sized but not on the curve)
+func c05garbageKinds() [][]byte {
+	offCurve := curve.GenG2.Bytes()
+	offCurve[len(offCurve)/2] ^= 0x01
+	offCurve1 := curve.GenG1.Bytes()
+	offCurve1[len(offCurve1)/2] ^= 0x01
+	return [][]byte{[]byte("this is certainly not the encoding of a point of the group"), {}, {0x04}, bytes.Repeat([]byte{0xff}, 192), bytes.Repeat([]byte{0xa5}, 97), bytes.Repeat([]byte{0x00}, 192),
+		bytes.Repeat([]byte{0xff}, curve.G2ByteSize), bytes.Repeat([]byte{0x00}, curve.G2ByteSize), bytes.Repeat([]byte{0xa5}, curve.G2ByteSize), offCurve,
+		bytes.Repeat([]byte{0xff}, curve.G1ByteSize), offCurve1}
+}
+
 func (c c05case) String() string {
 	return fmt.Sprintf("%s n=%d t=%d byz=%d %s victims=%v scalar=%d", c.Sch.Name, c.N, c.T, c.Byz, c.Strategy, c.Victims, c.Which)
 }
@@ -65,7 +77,7 @@ func runC05(cs c05case, rng *mrand.Rand) c05result {
 	}
 	captured := map[uint8][]byte{} // H's round-2 / round-3 message
 	var genuineCommit []byte
-	garbageKinds := [][]byte{[]byte("this is certainly not the encoding of a point of the group"), {}, {0x04}, bytes.Repeat([]byte{0xff}, 192), bytes.Repeat([]byte{0xa5}, 97), bytes.Repeat([]byte{0x00}, 192)}
+	garbageKinds := c05garbageKinds()
 	garbage := garbageKinds[(cs.Which+len(garbageKinds)+1)%len(garbageKinds)]
 	var heldCommit []dmsg
 	revealSent := false
@@ -350,7 +362,7 @@ func c05oracle(cs c05case, r c05result, rng *mrand.Rand) (string, string) {
 }
 
 func unitC05(e common.Env, p *common.Part) {
-	p.Rule = "directly wired BLS and PS key generations in which one participant is a real backend behind a wrapper that perturbs what goes in and out: off-polynomial share it receives (consistent commit/reveal), flipped outgoing share (PS: x and each y_j), altered commitment / reveal, copy of an honest party's commitment and key, malformed share (truncated, fewer elements, garbage), duplicates with a changed second copy (share, commitment, reveal), withheld share / commitment / reveal, reveal delivered before the commitment; x every single victim and all honest parties as victims x (n,t) incl. t=n x PRNG delivery order; context cancelled at quiescence (all remaining KeyGens parked on their condition variable, nothing queued); oracle: honest completers report identical public material, >= t honest completers sign jointly under the reported key, no honest reveal before all commitments were received (by message kind, and by content: no 32-byte window of the key a party finally reveals occurs in anything it transmitted earlier), no panic, no hang; distinct key = (scheme, n, t, Byzantine party, strategy, victims, scalar); non-trivial when the deviation actually reached a victim"
+	p.Rule = "directly wired BLS and PS key generations in which one participant is a real backend behind a wrapper that perturbs what goes in and out: off-polynomial share it receives (consistent commit/reveal), flipped outgoing share (PS: x and each y_j), altered commitment / reveal, copy of an honest party's commitment and key, malformed share (truncated, fewer elements, garbage), a commitment to garbage that is then revealed (garbage of arbitrary sizes and of exactly a group element's size: all ones, all zeros, a pattern, a genuine element with one byte changed), duplicates with a changed second copy (share, commitment, reveal), withheld share / commitment / reveal, reveal delivered before the commitment; x every single victim and all honest parties as victims x (n,t) incl. t=n x PRNG delivery order; context cancelled at quiescence (all remaining KeyGens parked on their condition variable, nothing queued); oracle: honest completers report identical public material, >= t honest completers sign jointly under the reported key, no honest reveal before all commitments were received (by message kind, and by content: no 32-byte window of the key a party finally reveals occurs in anything it transmitted earlier), no panic, no hang; distinct key = (scheme, n, t, Byzantine party, strategy, victims, scalar); non-trivial when the deviation actually reached a victim"
 	type nt struct{ n, t int }
 	nts := []nt{{3, 2}, {3, 3}, {4, 2}, {4, 3}, {4, 4}}
 	if e.Thorough() {
@@ -380,6 +392,15 @@ func unitC05(e common.Env, p *common.Part) {
 					}
 					if st == "malformed-share-fewer-elements" && sch.Name == "bls" {
 						continue
+					}
+					if st == "commit-to-garbage-and-reveal-it" {
+						// one case per kind of garbage (quick: the first, and the full-sized ones for every second configuration)
+						whichs = nil
+						for k := range c05garbageKinds() {
+							if e.Thorough() || k == 0 || (k >= 6 && (k+len(cases))%2 == 0) {
+								whichs = append(whichs, k-1)
+							}
+						}
 					}
 					for _, w := range whichs {
 						vsets := [][]uint16{honest, {honest[0]}, {honest[len(honest)-1]}}
